@@ -327,6 +327,7 @@ func main() {
 
 	if racePass {
 		racePassMode = true
+		debug.SetGCPercent(100) // the detector's shadow memory multiplies every live byte: collect normally here
 		racePassMain()
 		return
 	}
